@@ -581,6 +581,413 @@ example : (runLoop ⟨Gen.Syntax.table, Gen.Tags.cfg, recOps⟩ [60,97,32,61,98,
 example : QueryAccepted [72, 82, 69, 70] := by unfold QueryAccepted; decide     -- "HREF"
 example : ¬QueryAccepted [61, 98] := by unfold QueryAccepted; decide            -- "=b"
 
+/-! ## C16_reads_after_edits — reads after `set_attribute` / `remove_attribute` / `set_tag_name` -/
+
+theorem lower_idem (bs : Bytes) : asciiLowerBytes (asciiLowerBytes bs) = asciiLowerBytes bs := by
+  have h1 : ∀ b : UInt8, asciiLower (asciiLower b) = asciiLower b := by
+    intro b
+    unfold asciiLower
+    by_cases h : (65 ≤ b && b ≤ 90) = true
+    · simp only [h, if_true]
+      have : (65 ≤ b + 32 && b + 32 ≤ 90) = false := by
+        simp only [Bool.and_eq_true, decide_eq_true_eq, UInt8.le_iff_toNat_le] at h
+        simp only [Bool.and_eq_false_iff, decide_eq_false_iff_not, UInt8.le_iff_toNat_le, UInt8.toNat_add]
+        right
+        have := h.1; have := h.2
+        simp only [UInt8.toNat_ofNat] at *
+        omega
+      simp [this]
+    · simp [h]
+  simp [asciiLowerBytes, h1]
+
+theorem eqCI_iff (a l : Bytes) : eqCaseInsensitive a l = true ↔ asciiLowerBytes a = l := by
+  unfold eqCaseInsensitive; simp
+
+theorem nameFromStringE_ok {n l : Bytes} (h : nameFromStringE n = .ok l) : l = n := by
+  unfold nameFromStringE at h
+  split at h
+  · simp at h
+  · split at h
+    · simp at h
+    · simpa using h.symm
+
+/-- the two validators agree (the read path uses the one without an error value) -/
+theorem nameFromString_eq (n : Bytes) :
+    nameFromString n = (match nameFromStringE n with | .ok l => some l | .error _ => none) := by
+  unfold nameFromString nameFromStringE
+  split
+  · rfl
+  · cases hf : n.find? (fun ch => Gen.Consts.attrNameReject.contains ch) with
+    | some c =>
+      have : n.any (fun ch => Gen.Consts.attrNameReject.contains ch) = true := by
+        rw [List.any_eq_true]
+        exact ⟨c, List.mem_of_find?_eq_some hf, by simpa using List.find?_some hf⟩
+      rw [this]; rfl
+    | none =>
+      have : n.any (fun ch => Gen.Consts.attrNameReject.contains ch) = false := by
+        rw [List.find?_eq_none] at hf
+        rw [List.any_eq_false]
+        intro x hx
+        simpa using hf x hx
+      rw [this]; rfl
+
+/-- **Materialising the list changes no read**: before any edit the reads on the editable element are the reads
+on the token (`C16_lookup`, `C16_attributes`). -/
+theorem C16_reads_materialise (attrs : AttrList) (q : Bytes) :
+    getAttributeE (materialise attrs) q = getAttribute attrs q ∧
+    hasAttributeE (materialise attrs) q = hasAttribute attrs q ∧
+    attributesE (materialise attrs) = attributes attrs ∧
+    (∀ base, (materialise attrs).map (attrLocationsE base) = attrs.map (attrLocations base)) := by
+  have hm : (mapAttributeE (materialise attrs) q).map (·.2.1) = (mapAttribute attrs q).map (·.2.1) := by
+    unfold mapAttributeE mapAttribute
+    rw [nameFromString_eq]
+    cases nameFromStringE (asciiLowerBytes q) with
+    | error e => rfl
+    | ok name =>
+      simp only
+      induction attrs with
+      | nil => rfl
+      | cons a as ih =>
+        simp only [materialise, List.map_cons, List.find?_cons]
+        cases eqCaseInsensitive a.1 name with
+        | true => rfl
+        | false => exact ih
+  refine ⟨hm, ?_, ?_, ?_⟩
+  · unfold hasAttributeE hasAttribute
+    have := congrArg (fun o : Option Bytes => (o.map fun _ => true).getD false) hm
+    simpa [Option.map_map] using this
+  · simp [attributesE, attributes, materialise]
+  · intro base; simp [materialise, attrLocationsE]
+
+theorem setFirst_some {l v : Bytes} {items items' : EAttrList} (h : setFirst l v items = some items') :
+    ∃ pre a post, items = pre ++ a :: post ∧ (∀ b ∈ pre, eqCaseInsensitive b.1 l = false) ∧
+      eqCaseInsensitive a.1 l = true ∧ items' = pre ++ (a.1, v, none) :: post := by
+  induction items generalizing items' with
+  | nil => simp [setFirst] at h
+  | cons a rest ih =>
+    unfold setFirst at h
+    by_cases hc : eqCaseInsensitive a.1 l = true
+    · simp only [hc, if_true, Option.some.injEq] at h
+      exact ⟨[], a, rest, rfl, by simp, hc, h.symm⟩
+    · simp only [hc, Bool.false_eq_true, if_false, Option.map_eq_some_iff] at h
+      obtain ⟨r', hr', rfl⟩ := h
+      obtain ⟨pre, a0, post, h1, h2, h3, h4⟩ := ih hr'
+      refine ⟨a :: pre, a0, post, by rw [h1]; rfl, ?_, h3, by rw [h4]; rfl⟩
+      intro b hb
+      rcases List.mem_cons.mp hb with rfl | hb
+      · simpa using hc
+      · exact h2 b hb
+
+theorem setFirst_none {l v : Bytes} {items : EAttrList} (h : setFirst l v items = none) :
+    ∀ b ∈ items, eqCaseInsensitive b.1 l = false := by
+  induction items with
+  | nil => simp
+  | cons a rest ih =>
+    unfold setFirst at h
+    by_cases hc : eqCaseInsensitive a.1 l = true
+    · simp [hc] at h
+    · simp only [hc, Bool.false_eq_true, if_false, Option.map_eq_none_iff] at h
+      intro b hb
+      rcases List.mem_cons.mp hb with rfl | hb
+      · simpa using hc
+      · exact ih h b hb
+
+theorem find_skip {α : Type} (p : α → Bool) (pre : List α) (rest : List α) (h : ∀ b ∈ pre, p b = false) :
+    (pre ++ rest).find? p = rest.find? p := by
+  induction pre with
+  | nil => rfl
+  | cons x xs ih =>
+    simp only [List.cons_append, List.find?_cons, h x List.mem_cons_self]
+    exact ih fun b hb => h b (List.mem_cons_of_mem _ hb)
+
+/-- the reads of one query, in terms of the lower-cased name -/
+theorem reads_of (items : EAttrList) (q : Bytes) :
+    (∀ name, nameFromStringE (asciiLowerBytes q) = .ok name →
+      getAttributeE items q = (items.find? fun a => eqCaseInsensitive a.1 (asciiLowerBytes q)).map (·.2.1) ∧
+      hasAttributeE items q = (items.find? fun a => eqCaseInsensitive a.1 (asciiLowerBytes q)).isSome) ∧
+    (∀ e, nameFromStringE (asciiLowerBytes q) = .error e → getAttributeE items q = none ∧ hasAttributeE items q = false) := by
+  refine ⟨?_, ?_⟩
+  · intro name hn
+    have := nameFromStringE_ok hn
+    subst this
+    unfold getAttributeE hasAttributeE mapAttributeE
+    rw [hn]
+    refine ⟨rfl, ?_⟩
+    change ((List.find? (fun a => eqCaseInsensitive a.1 (asciiLowerBytes q)) items).map fun _ => true).getD false = _
+    cases List.find? (fun a => eqCaseInsensitive a.1 (asciiLowerBytes q)) items <;> rfl
+  · intro e he
+    unfold getAttributeE hasAttributeE mapAttributeE
+    rw [he]
+    exact ⟨rfl, rfl⟩
+
+/-- **C16_reads_after_set.** After an accepted `set_attribute(x, v)`:
+* `get_attribute(x) = Some(v)`, `has_attribute(x)`;
+* every query naming another attribute (ASCII-case-insensitively) reads what it read before;
+* the list: if an attribute named `x` existed, the FIRST one has the value `v` and has lost its source location — its
+  name (with its case), its position and everything else in the list are unchanged; otherwise `lower(x)="v"` has been
+  appended at the end. -/
+theorem C16_reads_after_set (items items' : EAttrList) (x v : Bytes) (h : setAttribute items x v = .ok items') :
+    getAttributeE items' x = some v ∧ hasAttributeE items' x = true ∧
+    (∀ y, asciiLowerBytes y ≠ asciiLowerBytes x →
+      getAttributeE items' y = getAttributeE items y ∧ hasAttributeE items' y = hasAttributeE items y) ∧
+    ((∃ pre a post, items = pre ++ a :: post ∧ (∀ b ∈ pre, asciiLowerBytes b.1 ≠ asciiLowerBytes x) ∧
+        asciiLowerBytes a.1 = asciiLowerBytes x ∧ items' = pre ++ (a.1, v, none) :: post) ∨
+     ((∀ b ∈ items, asciiLowerBytes b.1 ≠ asciiLowerBytes x) ∧ items' = items ++ [(asciiLowerBytes x, v, none)])) := by
+  unfold setAttribute at h
+  cases hn : nameFromStringE (asciiLowerBytes x) with
+  | error e => rw [hn] at h; simp at h
+  | ok lname =>
+    have hl := nameFromStringE_ok hn
+    subst hl
+    rw [hn] at h
+    simp only at h
+    have hne : ∀ (b : Bytes × Bytes × Option AttrOutline),
+        eqCaseInsensitive b.1 (asciiLowerBytes x) = false ↔ asciiLowerBytes b.1 ≠ asciiLowerBytes x := by
+      intro b
+      rw [← Bool.not_eq_true, eqCI_iff]
+    -- the shape of the new list
+    have shape : (∃ pre a post, items = pre ++ a :: post ∧ (∀ b ∈ pre, eqCaseInsensitive b.1 (asciiLowerBytes x) = false) ∧
+          eqCaseInsensitive a.1 (asciiLowerBytes x) = true ∧ items' = pre ++ (a.1, v, none) :: post) ∨
+        ((∀ b ∈ items, eqCaseInsensitive b.1 (asciiLowerBytes x) = false) ∧ items' = items ++ [(asciiLowerBytes x, v, none)]) := by
+      cases hs : setFirst (asciiLowerBytes x) v items with
+      | some r =>
+        rw [hs] at h
+        simp only [Except.ok.injEq] at h
+        subst h
+        exact Or.inl (setFirst_some hs)
+      | none =>
+        rw [hs] at h
+        simp only [Except.ok.injEq] at h
+        exact Or.inr ⟨setFirst_none hs, h.symm⟩
+    have hx := (reads_of items' x).1 _ hn
+    have other : ∀ y, asciiLowerBytes y ≠ asciiLowerBytes x →
+        (items'.find? fun a => eqCaseInsensitive a.1 (asciiLowerBytes y)).map (·.2.1) =
+          (items.find? fun a => eqCaseInsensitive a.1 (asciiLowerBytes y)).map (·.2.1) ∧
+        (items'.find? fun a => eqCaseInsensitive a.1 (asciiLowerBytes y)).isSome =
+          (items.find? fun a => eqCaseInsensitive a.1 (asciiLowerBytes y)).isSome := by
+      intro y hy
+      rcases shape with ⟨pre, a, post, h1, h2, h3, h4⟩ | ⟨h1, h2⟩
+      · have ha : eqCaseInsensitive a.1 (asciiLowerBytes y) = false := by
+          rw [← Bool.not_eq_true, eqCI_iff, (eqCI_iff _ _).mp h3]
+          exact fun hh => hy hh.symm
+        rw [h1, h4]
+        simp only [List.find?_append, List.find?_cons, ha]
+        exact ⟨by first | rfl | trivial, by first | rfl | trivial⟩
+      · have hnew : eqCaseInsensitive (asciiLowerBytes x) (asciiLowerBytes y) = false := by
+          rw [← Bool.not_eq_true, eqCI_iff, lower_idem]
+          exact fun hh => hy hh.symm
+        rw [h2]
+        simp only [List.find?_append, List.find?_cons, hnew, List.find?_nil, Option.or_none]
+        exact ⟨by first | rfl | trivial, by first | rfl | trivial⟩
+    refine ⟨?_, ?_, ?_, ?_⟩
+    · rw [hx.1]
+      rcases shape with ⟨pre, a, post, h1, h2, h3, h4⟩ | ⟨h1, h2⟩
+      · rw [h4, find_skip _ pre _ h2]
+        simp only [List.find?_cons, h3]
+        rfl
+      · rw [h2, find_skip _ items _ h1]
+        simp [eqCaseInsensitive, lower_idem]
+    · rw [hx.2]
+      rcases shape with ⟨pre, a, post, h1, h2, h3, h4⟩ | ⟨h1, h2⟩
+      · rw [h4, find_skip _ pre _ h2]
+        simp only [List.find?_cons, h3]
+        rfl
+      · rw [h2, find_skip _ items _ h1]
+        simp [eqCaseInsensitive, lower_idem]
+    · intro y hy
+      cases hny : nameFromStringE (asciiLowerBytes y) with
+      | ok name =>
+        obtain ⟨a1, a2⟩ := (reads_of items' y).1 _ hny
+        obtain ⟨b1, b2⟩ := (reads_of items y).1 _ hny
+        rw [a1, a2, b1, b2]
+        exact other y hy
+      | error e =>
+        obtain ⟨a1, a2⟩ := (reads_of items' y).2 _ hny
+        obtain ⟨b1, b2⟩ := (reads_of items y).2 _ hny
+        rw [a1, a2, b1, b2]
+        exact ⟨rfl, rfl⟩
+    · rcases shape with ⟨pre, a, post, h1, h2, h3, h4⟩ | ⟨h1, h2⟩
+      · exact Or.inl ⟨pre, a, post, h1, fun b hb => (hne b).mp (h2 b hb), (eqCI_iff _ _).mp h3, h4⟩
+      · exact Or.inr ⟨fun b hb => (hne b).mp (h1 b hb), h2⟩
+
+/-- **C16_reads_after_remove.** After `remove_attribute(x)` with a name the validator accepts: the list is the old
+list without EVERY attribute named `x` (ASCII-case-insensitively), order kept; `has_attribute(x)` is false,
+`get_attribute(x)` is `None`; every other query reads what it read before; the flag the element uses to mark the tag
+as modified says whether something was removed. -/
+theorem C16_reads_after_remove (items : EAttrList) (x lname : Bytes) (hn : nameFromStringE (asciiLowerBytes x) = .ok lname) :
+    (removeAttribute items x).1 = items.filter (fun a => asciiLowerBytes a.1 != asciiLowerBytes x) ∧
+    getAttributeE (removeAttribute items x).1 x = none ∧ hasAttributeE (removeAttribute items x).1 x = false ∧
+    (∀ y, asciiLowerBytes y ≠ asciiLowerBytes x →
+      getAttributeE (removeAttribute items x).1 y = getAttributeE items y ∧
+      hasAttributeE (removeAttribute items x).1 y = hasAttributeE items y) ∧
+    ((removeAttribute items x).2 = hasAttributeE items x) := by
+  have hl := nameFromStringE_ok hn
+  subst hl
+  have hfind : ∀ (items : EAttrList) (y : Bytes), (List.find? (fun a => eqCaseInsensitive a.1 (asciiLowerBytes y))
+        (items.filter (fun a => asciiLowerBytes a.1 != asciiLowerBytes x))) =
+      if asciiLowerBytes y = asciiLowerBytes x then none
+      else items.find? (fun a => eqCaseInsensitive a.1 (asciiLowerBytes y)) := by
+    intro items y
+    induction items with
+    | nil => simp
+    | cons a as ih =>
+      simp only [List.filter_cons]
+      by_cases ha : asciiLowerBytes a.1 = asciiLowerBytes x
+      · simp only [ha, bne_self_eq_false, Bool.false_eq_true, if_false, List.find?_cons]
+        rw [ih]
+        by_cases hy : asciiLowerBytes y = asciiLowerBytes x
+        · simp [hy]
+        · have : eqCaseInsensitive a.1 (asciiLowerBytes y) = false := by
+            rw [← Bool.not_eq_true, eqCI_iff, ha]; exact fun hh => hy hh.symm
+          simp [hy, this]
+      · have hb : (asciiLowerBytes a.1 != asciiLowerBytes x) = true := by simpa using ha
+        simp only [hb, if_true, List.find?_cons]
+        rw [ih]
+        by_cases hy : asciiLowerBytes y = asciiLowerBytes x
+        · have : eqCaseInsensitive a.1 (asciiLowerBytes x) = false := by
+            rw [← Bool.not_eq_true, eqCI_iff]; exact ha
+          rw [hy]
+          simp [this]
+        · simp only [hy, if_false]
+  have hflag : ∀ (items : EAttrList),
+      (items.length != (items.filter (fun a => !eqCaseInsensitive a.1 (asciiLowerBytes x))).length) =
+        (items.find? (fun a => eqCaseInsensitive a.1 (asciiLowerBytes x))).isSome := by
+    intro items
+    induction items with
+    | nil => rfl
+    | cons a as ih =>
+      simp only [List.filter_cons, List.find?_cons]
+      by_cases ha : eqCaseInsensitive a.1 (asciiLowerBytes x) = true
+      · simp only [ha, Bool.not_true, Bool.false_eq_true, if_false, Option.isSome_some]
+        have := List.length_filter_le (fun a => !eqCaseInsensitive a.1 (asciiLowerBytes x)) as
+        simp only [List.length_cons, bne_iff_ne, ne_eq]
+        omega
+      · have ha' : eqCaseInsensitive a.1 (asciiLowerBytes x) = false := by simpa using ha
+        simp only [ha', Bool.not_false, if_true, List.length_cons]
+        rw [← ih]
+        by_cases hlen : as.length = (List.filter (fun a => !eqCaseInsensitive a.1 (asciiLowerBytes x)) as).length
+        · simp [hlen]
+        · simp [hlen]
+  have hrm : (removeAttribute items x).1 = items.filter (fun a => asciiLowerBytes a.1 != asciiLowerBytes x) := by
+    unfold removeAttribute
+    rw [hn]
+    simp only
+    congr 1
+  refine ⟨hrm, ?_, ?_, ?_, ?_⟩
+  · rw [((reads_of _ x).1 _ hn).1, hrm, hfind]; simp
+  · rw [((reads_of _ x).1 _ hn).2, hrm, hfind]; simp
+  · intro y hy
+    cases hny : nameFromStringE (asciiLowerBytes y) with
+    | ok name =>
+      obtain ⟨a1, a2⟩ := (reads_of (removeAttribute items x).1 y).1 _ hny
+      obtain ⟨b1, b2⟩ := (reads_of items y).1 _ hny
+      rw [a1, a2, b1, b2, hrm, hfind, if_neg hy]
+      exact ⟨by first | rfl | trivial, by first | rfl | trivial⟩
+    | error e =>
+      obtain ⟨a1, a2⟩ := (reads_of (removeAttribute items x).1 y).2 _ hny
+      obtain ⟨b1, b2⟩ := (reads_of items y).2 _ hny
+      rw [a1, a2, b1, b2]
+      exact ⟨by first | rfl | trivial, by first | rfl | trivial⟩
+  · rw [((reads_of items x).1 _ hn).2, ← hflag]
+    unfold removeAttribute
+    rw [hn]
+
+/-- a rejected name removes nothing -/
+theorem C16_remove_rejected (items : EAttrList) (x : Bytes) (e : AttrNameError)
+    (hn : nameFromStringE (asciiLowerBytes x) = .error e) : removeAttribute items x = (items, false) := by
+  unfold removeAttribute; rw [hn]
+
+/-- the full-strength statement for `remove_attribute`: afterwards no listed attribute has that name -/
+def C16_remove_statement : Prop :=
+  ∀ (items : EAttrList) (x : Bytes), ∀ a ∈ (removeAttribute items x).1, asciiLowerBytes a.1 ≠ asciiLowerBytes x
+
+/-- **F8 again** (`<a =b>`): `remove_attribute("=b")` leaves the attribute `=b` that `attributes()` lists, because the
+name goes through the setter's validator -/
+theorem C16_remove_counterexample : ¬C16_remove_statement := by
+  intro h
+  have := h [([61, 98], [], none)] [61, 98] ([61, 98], [], none) (by decide)
+  revert this
+  decide
+
+/-- **C16_reads_after_rename.** An accepted `set_tag_name(n)` stores `n` as given: `tag_name()` is its lower-casing,
+`tag_name_preserve_case()` is `n`; the attributes are untouched. -/
+theorem C16_reads_after_rename (t : ETag) (n nm : Bytes) (h : tagNameFromStr n = .ok nm) :
+    (t.apply (.rename n)).2 = .ok ∧ AttrsApi.tagName (t.apply (.rename n)).1.name = asciiLowerBytes n ∧
+    (t.apply (.rename n)).1.name = n ∧ (t.apply (.rename n)).1.items = t.items := by
+  have hnm : nm = n := by
+    unfold tagNameFromStr at h
+    split at h
+    · simp at h
+    · split at h
+      · simp at h
+      · split at h
+        · simp at h
+        · simpa using h.symm
+  subst hnm
+  simp only [ETag.apply, h]
+  refine ⟨?_, ?_, ?_, ?_⟩ <;> first | rfl | trivial
+
+/-- an edit that reports an error changes nothing -/
+theorem C16_rejected_edit_noop (t : ETag) (e : Edit) (h : (t.apply e).2 ≠ .ok) : (t.apply e).1 = t := by
+  cases e with
+  | set n v =>
+    simp only [ETag.apply] at h ⊢
+    split <;> simp_all
+  | remove n => simp [ETag.apply] at h
+  | rename n =>
+    simp only [ETag.apply] at h ⊢
+    split <;> simp_all
+
+/-- **C16_reads_after_edits.** The three clauses together, on the element as a handler edits it (`ETag.apply`):
+reads after `set_attribute` / `remove_attribute` / `set_tag_name` on the same token reflect exactly those edits. -/
+theorem C16_reads_after_edits (t : ETag) :
+    (∀ x v, (t.apply (.set x v)).2 = .ok →
+      getAttributeE (t.apply (.set x v)).1.items x = some v ∧
+      (∀ y, asciiLowerBytes y ≠ asciiLowerBytes x →
+        getAttributeE (t.apply (.set x v)).1.items y = getAttributeE t.items y) ∧
+      (t.apply (.set x v)).1.name = t.name ∧
+      ((t.apply (.set x v)).1.items.map (·.1) = t.items.map (·.1) ∨
+       (t.apply (.set x v)).1.items = t.items ++ [(asciiLowerBytes x, v, none)])) ∧
+    (∀ x lname, nameFromStringE (asciiLowerBytes x) = .ok lname →
+      hasAttributeE (t.apply (.remove x)).1.items x = false ∧
+      (∀ y, asciiLowerBytes y ≠ asciiLowerBytes x →
+        getAttributeE (t.apply (.remove x)).1.items y = getAttributeE t.items y) ∧
+      (t.apply (.remove x)).1.name = t.name ∧
+      (t.apply (.remove x)).1.items = t.items.filter (fun a => asciiLowerBytes a.1 != asciiLowerBytes x)) ∧
+    (∀ n, (t.apply (.rename n)).2 = .ok →
+      AttrsApi.tagName (t.apply (.rename n)).1.name = asciiLowerBytes n ∧ (t.apply (.rename n)).1.items = t.items) := by
+  refine ⟨?_, ?_, ?_⟩
+  · intro x v hok
+    cases hs : setAttribute t.items x v with
+    | error e => simp [ETag.apply, hs] at hok
+    | ok items' =>
+      obtain ⟨a, _, c, d⟩ := C16_reads_after_set t.items items' x v hs
+      simp only [ETag.apply, hs]
+      refine ⟨a, fun y hy => (c y hy).1, by first | rfl | trivial, ?_⟩
+      rcases d with ⟨pre, a0, post, h1, _, _, h4⟩ | ⟨_, h2⟩
+      · left; rw [h1, h4]; simp
+      · right; exact h2
+  · intro x lname hn
+    obtain ⟨a, _, c, d, _⟩ := C16_reads_after_remove t.items x lname hn
+    simp only [ETag.apply]
+    exact ⟨c, fun y hy => (d y hy).1, by first | rfl | trivial, a⟩
+  · intro n hok
+    cases hs : tagNameFromStr n with
+    | error e => simp [ETag.apply, hs] at hok
+    | ok nm =>
+      obtain ⟨_, b, _, d⟩ := C16_reads_after_rename t n nm hs
+      exact ⟨b, d⟩
+
+/-- the coordinator's seeded defect, as an instance: on an attribute-less tag, `set x` then `remove X` leaves nothing -/
+example : (ETag.applyAll ⟨[97], materialise []⟩ [.set [120] [49], .remove [88]]).1.items = [] := by decide
+example : (ETag.applyAll ⟨[97], materialise []⟩ [.remove [88], .set [120] [49], .rename [68, 73, 86]]).1 =
+    ⟨[68, 73, 86], [([120], [49], none)]⟩ := by decide
+/-- duplicates: `set` touches the first, `remove` takes all -/
+example : (ETag.applyAll ⟨[97], [([88], [49], none), ([120], [50], none)]⟩ [.set [120] [51]]).1.items =
+    [([88], [51], none), ([120], [50], none)] := by decide
+example : (ETag.applyAll ⟨[97], [([88], [49], none), ([98], [], none), ([120], [50], none)]⟩ [.remove [120]]).1.items =
+    [([98], [], none)] := by decide
+
 /-! ## C16_context — `can_have_content`, `namespace_uri` -/
 
 /-- side-condition on the generated tag lists: the fast-path list of `is_void_element` (Div, A, Span,
